@@ -437,6 +437,34 @@ def case_history(rng, kind, allow_zero_ts=True, unique=True, nrows=None, two=Fal
     return "%s %s ; %s" % (kind, S_C02, h.text())
 
 
+def case_tie_single(rng, kind):
+    """ONE batch in which a key is written several times with the same greatest version (a retry, or versions left
+    unset = 0), queried while that memory part is the only part (single-cursor `copyAllTo` shortcut), then after a flush"""
+    sids = rng.sample(SIDS, rng.choice([1, 2]))
+    tss = rng.sample(TS_SMALL, rng.randint(1, 3))
+    top = rng.choice([0, 0, 7, I64MAX])
+    rows = []
+    for sid in sids:
+        for t in tss:
+            for _ in range(rng.choice([1, 2, 2, 3])):
+                rows.append(Row(sid, t, top, None))
+            if rng.random() < 0.4 and top > I64MIN:
+                rows.append(Row(sid, t, top - rng.choice([1, 5]), None))
+    rng.shuffle(rows)
+    for i, r in enumerate(rows):
+        r.vals = ["s" + rng.choice(STRS), "i%d" % i]
+    h = Hist(rng)
+    h.batch(0, rows)
+    lo, hi = min(tss), max(tss)
+    for o in rng.sample(["ta", "td", "s"], 2):
+        h.query(0, sorted(sids), lo, hi, o)
+    h.query(0, [sids[-1]], lo, hi, "ta")
+    h.dump()
+    h.flush(list(h.mem))
+    h.query(0, sorted(sids), lo, hi, "ta")
+    return "%s %s ; %s" % (kind, S_C02, h.text())
+
+
 def case_big(rng, kind, cfg_len=8192):
     """one series crossing the block length limit: blocks of exactly maxBlockLength-1/+0/+1 rows, overlapping
     parts, duplicates across parts, merges that take the split path"""
@@ -598,7 +626,7 @@ class C02(StoreSpec):
     rule = ("histories over 1-3 series x 1-6 timestamps (small pool incl. 0 and negatives, or int64 extremes) x versions from a 4-value pool "
             "with forced ties, 1-40 rows split into 1-6 batches in random order, random flush/merge (fan-in 1-8, memory or file parts) "
             "between batches, queries in all three orders over full and partial ranges; `meta`: the same multiset under two histories; "
-            "`tie`: equal (series, ts, version) with different values; `big`: one series of maxBlockLength-1..+2 rows plus overlapping parts; "
+            "`tie`: equal (series, ts, version) with different values; `tie1`: one batch with a key repeated at the same greatest version, queried while it is the only part; `big`: one series of maxBlockLength-1..+2 rows plus overlapping parts; "
             "non-trivial = history in which some key was written more than once")
 
     def cases(self, rng, n):
@@ -610,8 +638,10 @@ class C02(StoreSpec):
                 out.append(case_history(rng, "dup"))
             elif r < 0.75:
                 out.append(case_history(rng, "meta", two=True))
-            elif r < 0.92:
+            elif r < 0.88:
                 out.append(case_history(rng, "tie", unique=False))
+            elif r < 0.92:
+                out.append(case_tie_single(rng, "tie1"))
             else:
                 out.append(case_history(rng, "long", nrows=rng.choice([60, 120, 250])))
         for i in range(nbig):
